@@ -336,6 +336,66 @@ pub fn run_matrix(tier: &str, seed: u64, out: &mut Out) {
             out.raw(&job.to_string());
         }
     }
+    // keyed and key-less lists over arrays AND objects (the object form has its update marks keyed by field name), with
+    // item-level marks, key changes, duplicated keys, reorders, growth and shrinkage: the list manager of the real runtime
+    // (range_list_diff.ts) decides which item gets which marks
+    let list_templates: Vec<&str> = vec![
+        "<block wx:for=\"{{ q }}\" wx:key=\"id\"><text>{{ index }}={{ item.v }}/{{ item.id }}</text></block>",
+        "<v wx:for=\"{{ q }}\" wx:key=\"id\" a=\"{{ item.v }}\" b=\"{{ index }}\">{{ item.w.x }}</v>",
+        "<block wx:for=\"{{ q }}\"><text>{{ index }}={{ item.v }}</text></block>",
+        "<block wx:for=\"{{ q }}\" wx:key=\"*this\"><text>{{ index }}:{{ item }}:{{ item.v }}</text></block>",
+        "<block wx:for=\"{{ q }}\" wx:key=\"v\"><text>{{ item.v }}</text><block wx:for=\"{{ item.t }}\" wx:for-item=\"u\" wx:key=\"k\">{{ u.n }}</block></block>",
+    ];
+    let it = |id: i64, v: &str| json!({"$o": {"id": id, "v": v, "w": {"$o": {"x": format!("w{}", v)}}, "t": {"$a": [{"$o": {"k": 1, "n": format!("n{}", v)}}, {"$o": {"k": 2, "n": "m"}}]}}});
+    let list_configs: Vec<(J, Vec<(Vec<&str>, J)>)> = vec![
+        // an array of keyed items
+        (json!({"$o": {"q": {"$a": [it(1, "x"), it(2, "y"), it(3, "z")]}}}), vec![
+            (vec!["q", "0", "v"], json!("X1")), (vec!["q", "2", "w", "x"], json!("W")), (vec!["q", "1", "id"], json!(9)),
+            (vec!["q", "1", "t", "0", "n"], json!("N")),
+            (vec!["q"], json!({"$a": [it(3, "z"), it(1, "X1"), it(9, "y")]})), (vec!["q", "1", "v"], json!("X2")),
+            (vec!["q"], json!({"$a": [it(3, "z"), it(4, "new"), it(1, "X2"), it(9, "y"), it(5, "e")]})),
+            (vec!["q"], json!({"$a": [it(4, "new"), it(9, "y")]})), (vec!["q", "0", "id"], json!(9)), (vec!["q", "1", "v"], json!("dup")),
+            (vec!["q"], json!({"$a": []})), (vec!["q"], json!({"$a": [it(7, "s")]})),
+        ]),
+        // an object of keyed items
+        (json!({"$o": {"q": {"$o": {"a": it(1, "x"), "b": it(2, "y"), "c": it(3, "z")}}}}), vec![
+            (vec!["q", "a", "v"], json!("X1")), (vec!["q", "c", "w", "x"], json!("W")), (vec!["q", "b", "id"], json!(9)),
+            (vec!["q", "b", "t", "0", "n"], json!("N")),
+            (vec!["q"], json!({"$o": {"c": it(3, "z"), "a": it(1, "X1"), "b": it(9, "y")}})), (vec!["q", "a", "v"], json!("X2")),
+            (vec!["q"], json!({"$o": {"c": it(3, "z"), "n": it(4, "new"), "a": it(1, "X2"), "b": it(9, "y")}})),
+            (vec!["q"], json!({"$o": {"n": it(4, "new"), "b": it(9, "y")}})), (vec!["q", "n", "id"], json!(9)), (vec!["q", "b", "v"], json!("dup")),
+            (vec!["q"], json!({"$o": {}})), (vec!["q"], json!({"$o": {"z": it(7, "s")}})),
+        ]),
+        // primitives (key *this), with duplicates
+        (json!({"$o": {"q": {"$a": ["p", "q", "p", 3]}}}), vec![
+            (vec!["q", "1"], json!("Q")), (vec!["q"], json!({"$a": ["Q", "p", "p", 3, 3]})), (vec!["q", "4"], json!("end")),
+            (vec!["q"], json!({"$a": [3, "p"]})), (vec!["q"], json!("str")), (vec!["q"], json!(3)), (vec!["q"], json!({"$o": {"k": "v", "l": "w"}})),
+            (vec!["q", "l"], json!("W")),
+        ]),
+    ];
+    for (li, src) in list_templates.iter().enumerate() {
+        let mut tg = TmplGroup::new();
+        let diags = tg.add_tmpl("p", src);
+        let max_level = diags.iter().map(|d| d.kind.level() as u8).max().unwrap_or(0);
+        let bundle = tg.get_tmpl_gen_object_groups().unwrap_or_default();
+        for (ci, (d0, steps)) in list_configs.iter().enumerate() {
+            let mut datas = vec![d0.clone()];
+            let mut trees = vec![];
+            let mut cur = d0.clone();
+            for (path, nv) in steps.iter() {
+                set_path(&mut cur, path, nv.clone());
+                datas.push(cur.clone());
+                let p: Vec<String> = path.iter().map(|x| x.to_string()).collect();
+                trees.push(tree_of(&[p], 0));
+            }
+            let job = json!({
+                "kind": "behave", "id": format!("K{}-{}", li, ci), "src": src, "bundle": bundle, "path": "p", "max_level": max_level,
+                "datas": datas, "trees": trees, "features": [format!("matrix-keyed-list-{}", li), "matrix-all-contexts"],
+                "slotValues": {"$o": {}},
+            });
+            out.raw(&job.to_string());
+        }
+    }
     for shape in shapes.iter() {
         let e = shape;
         let wxs = "<wxs module=\"m\">exports.f = function(){ return 'F' }; exports.g = function(){ return 'G' }; exports.a = 'ma'; exports.x = 'mx'; exports.b = 'mb'; exports.o = { a: 'moa', x: 'mox', b: 'mob' }</wxs>";
